@@ -1,5 +1,5 @@
 def setup(chk):
     chk.add_tu('C18.cpp')
     chk.extra_evidence.update({
-        'bounds_text': 'SipHash::Compute vs reference siphash24 for all contents of length L and all 128-bit keys; quick L in {0..9,15,16,17}; thorough L = 0..40 and {255,256,257,263,264}; name-shaped inputs of N bytes incl. NUL with the fixed library keys (quick N in {1,2,6,8,9}); declared-name enumeration (6 table names, 2 interfaces, 3 methods)',
+        'bounds_text': 'SipHash::Compute vs reference siphash24 for all contents of length L and all 128-bit keys; quick L in {0..9,15,16,17}; thorough L = 0..40 and {255,256,257,263,264}; name-shaped inputs of N bytes incl. NUL with the fixed library keys (quick N in {1,2,8,9}; thorough adds {6,12,16,17,24,25}; N = 31 gave no verdict in 900 s and was dropped); declared-name enumeration (6 table names, 2 interfaces, 3 methods)',
         'outside_bounds': ['L > 40 other than the five lengths around 256', 'declared names other than those listed (part 3 is an enumeration, part 1/2 are the all-inputs claims)']})
